@@ -164,6 +164,18 @@ func checkC16(c *Ctx) {
 	if getRoot != nil && lrk != nil {
 		checkLegacyRootTable(c, getRoot, lrk)
 	}
+	c.rule("OWN-resolve-inputs", "node / root lookups depend on the key and the stored bytes only", 4)
+	checkResolveInputs(c, "OWN-resolve-inputs")
+	// across the boundary the same node is known by its hash (legacy) and by a node key (re-saved copy): shared subtrees are recognised by hash
+	c.rule("DOM-shared-by-hash", "the change-set diff skips a subtree as shared only on pointer or hash equality", 1)
+	if escF := l.Func("", "*nodeDB.extractStateChanges"); escF == nil {
+		c.anchorMissing("DOM-shared-by-hash", "extractStateChanges")
+	} else {
+		checkSharedByHash(c, "DOM-shared-by-hash", escF, func(v ssa.Value) bool {
+			return strings.Contains(roleOf(l, v, "", 0), "NewNodeIterator(arg1")
+		})
+	}
+	checkLegacyRootResave(c)
 	checkLegacyOrphanTable(c)
 	// pruning across the boundary
 	dvt := l.Func("", "*nodeDB.deleteVersionsTo")
@@ -465,5 +477,63 @@ func checkLegacyOrphanTable(c *Ctx) {
 			}
 			c.decide(R, key, l.pos(cb.Pos()), deleted == want, "node "+got, "node is "+got+", must be "+exp+": `to` is the last version in which the node is live, so to == L means the latest legacy version (and the new-format versions built on it) still use it")
 		}
+	}
+}
+
+// checkLegacyRootResave: a commit whose root is an already stored LEGACY node
+// (no new nodes: `root.nodeKey != nil`) writes a reference to (version, nonce)
+// of that node — a key-space in which the legacy node does not exist.  The
+// node is therefore re-saved in the new format on EVERY such commit: on the
+// `isLegacy` edge every success return passes SaveNode(root), and the edge is
+// not narrowed by a further condition (a legacy subtree promoted to root by a
+// removals-only commit is such a root too).
+func checkLegacyRootResave(c *Ctx) {
+	l := c.L
+	const R = "PASS-legacy-root-resave"
+	c.rule(R, "a commit that references a legacy root re-saves that root in the new format", 1)
+	sv := l.Func("", "*MutableTree.SaveVersion")
+	saveRoot := l.Func("", "*nodeDB.SaveRoot")
+	saveNode := l.Func("", "*nodeDB.SaveNode")
+	fLegacy := l.Field("", "Node", "isLegacy")
+	if sv == nil || saveRoot == nil || saveNode == nil || fLegacy == nil {
+		c.anchorMissing(R, "SaveVersion / SaveRoot / SaveNode / Node.isLegacy")
+		return
+	}
+	// edges on which the root is known NOT to be legacy
+	notLegacy := func(from *ssa.BasicBlock, si int) bool {
+		iff := ifOf(from)
+		if iff == nil {
+			return false
+		}
+		v := stripTrivial(iff.Cond)
+		return isLoadOfField(fLegacy)(v) && si == 1
+	}
+	isSave := func(in ssa.Instruction) bool { cc := callCommon(in); return cc != nil && predStatic(saveNode)(cc) }
+	isRef := func(in ssa.Instruction) bool { cc := callCommon(in); return cc != nil && predStatic(saveRoot)(cc) }
+	// "no reference root pending a re-save": true at entry, false after SaveRoot, true again after SaveNode / on the not-legacy edge
+	q := mustStateE(sv, true, isSave, isRef, notLegacy)
+	n := 0
+	for _, in := range callsIn(sv, predStatic(saveRoot)) {
+		n++
+		// every success return reachable after the reference was queued has passed SaveNode or the not-legacy edge
+		ok := true
+		var bad ssa.Instruction
+		searchFrom([]point{after(in)}, func(x ssa.Instruction) bool {
+			if r, isRet := x.(*ssa.Return); isRet {
+				if errNilness(retVal(r, 2), r.Block(), 0) <= 0 && !q(r) {
+					ok, bad = false, r
+				}
+				return true
+			}
+			return false
+		})
+		pos := l.ipos(in)
+		if bad != nil {
+			pos = l.ipos(bad)
+		}
+		c.decide(R, "SaveVersion: reference root ⇒ a legacy root is re-saved", pos, ok, "every success path passes SaveNode(root) or the `not legacy` edge", "a commit can reference a legacy root without re-saving it in the new format (the legacy test is narrowed by another condition or the save is skipped): the reference points at a node key under which nothing is stored, and the committed version cannot be loaded")
+	}
+	if n == 0 {
+		c.anchorMissing(R, "SaveVersion no longer calls SaveRoot")
 	}
 }
